@@ -20,6 +20,8 @@ type Violation struct {
 	Detail string `json:"detail"`
 	// Witness is the self-contained input (documents, options, call) that failed.
 	Witness interface{} `json:"witness,omitempty"`
+	// Repeats counts further observations of the same class within the same case.
+	Repeats int `json:"repeats,omitempty"`
 }
 
 // CaseResult is what running one case produces.
@@ -41,7 +43,22 @@ func (r *CaseResult) Count(key string, n int) {
 	r.Cover[key] += n
 }
 
+// Violate records a refuting observation. Within one case a class is recorded once (with its witness);
+// repetitions are only counted, so that a badly broken tree cannot blow up the result record.
 func (r *CaseResult) Violate(class, detail string, witness interface{}) {
+	for i := range r.Violations {
+		if r.Violations[i].Class == class {
+			r.Violations[i].Repeats++
+			return
+		}
+	}
+	if len(r.Violations) >= 40 {
+		r.Violations[len(r.Violations)-1].Repeats++
+		return
+	}
+	if len(detail) > 4000 {
+		detail = detail[:4000] + "...(truncated)"
+	}
 	r.Violations = append(r.Violations, Violation{Class: class, Detail: detail, Witness: witness})
 }
 
